@@ -589,10 +589,10 @@ Definition parse_changelog (J : junk) (strict allow : bool) (maxb : option nat) 
   : result pst :=
   match inp with
   | InStr s =>
-      match strip_by ws s with
-      | [] => warn strict WEmpty init_pst                 (* if not file.strip(): ...; return *)
-      | _ => run J strict allow maxb init_pst (str_lines s)
-      end
+      (* if not file.strip(): ...; return      -- file.strip() is empty iff every
+         character is white space (written with forallb: List.rev is quadratic) *)
+      if forallb ws s then warn strict WEmpty init_pst
+      else run J strict allow maxb init_pst (str_lines s)
   | InLines ls => run J strict allow maxb init_pst ls
   | InFile s => run J strict allow maxb init_pst (file_lines s)
   end.
